@@ -219,7 +219,10 @@ def run(seed, tier, lean) -> Result:
     r = random.Random(seed ^ 0xC09)
     for _ in range(150 if tier == 'quick' else 900):
         cs = r.getrandbits(48)
-        probs, info = generated_case(random.Random(cs))
+        from ..common import guarded
+        done, pi = guarded(res, generated_case, random.Random(cs))
+        if not done: continue
+        probs, info = pi
         res.evaluations += 1; res.bump('generated_graph_cases')
         if probs:
             res.violations.append(Violation(what=f'{probs[0]} (graph generated from a language and model; steps: {info["steps"][-3:]})',
